@@ -14,7 +14,8 @@ EXPLANATION = (
     "Solver.__init__ from the literal passed in StochasticGame.solve) and 10^-d matches the threshold; the role "
     "table stores best for Player 1, worst for Player 2, None otherwise, at the state's own index for the whole "
     "state list; strategies are computed before and independently of any pruning. Whether two mathematically equal "
-    "values computed along different float paths round to the same key is NOT decided.")
+    "values computed along different float paths round to the same key is NOT decided."
+    ' Also: the digits formula is folded for eight thresholds, not only the default (C04.2); nothing computed by one solve is handed to the next (pre:C10.2); no selection kernel funnels its transitions through a dictionary keyed by a part of the transition (0:keyed).')
 ASSUMPTIONS = ["reach probabilities lie in [0,1]", "action labels are compared only for equality"]
 TECHNIQUE = "symbolic arg-set normal forms + constant folding of the precision chain (ast)"
 
